@@ -515,18 +515,18 @@ Arguments fill_keys {T}.
    [trid] = int(params[0]) is used only when there is exactly one number; [table] = the TR cards.
    Three numbers are a translation completed with the identity matrix, also for the starred
    keywords and also when the three numbers are 0 (the result is the 12-entry identity, not the
-   empty tuple); a starred keyword WITHOUT any number goes through normalize_transform([]) and
-   yields the identity as well (so `*FILL=n` is not "a FILL without transformation" for
-   pot_fill); more numbers go through to_cos / normalize_transform (numeric layer: C04/C17),
+   empty tuple); a FILL / *FILL keyword without any number yields () (pot_fill then falls back
+   to the TRCL; /repo c2e06ed), while a starred TRCL without any number still goes through
+   normalize_transform([]) and yields the identity (harmless there); more numbers go through to_cos / normalize_transform (numeric layer: C04/C17),
    which is opaque here. *)
 Inductive trshape := TSList (l : list Z) | TSNorm.
 
 Definition identity12 : list Z := [0; 0; 0; 1; 0; 0; 0; 1; 0; 0; 0; 1].
 
-Definition parse_tr_params (star : bool) (trid : Z) (params : list Z) (table : list (Z * list Z))
-  : res trshape :=
+Definition parse_tr_params (is_fill star : bool) (trid : Z) (params : list Z)
+           (table : list (Z * list Z)) : res trshape :=
   match params with
-  | [] => if star then Ok (TSList identity12)   (* normalize_transform([]) *)
+  | [] => if star && negb is_fill then Ok (TSList identity12)   (* normalize_transform([]) *)
           else Ok (TSList [])
   | [_] => match dget trid table with
            | None => Err EKey
